@@ -7,7 +7,7 @@ from propbase import KERNEL, HARNESS
 # what a run must have reached to count as evidence for the branches named in level_text / assumptions
 REQUIRED_TAGS = ["factor_double_compared=true", "factor_inexact=true", "factor_filtered_double=true", "model_compared=true",
                  "model_compared=false", "huge_ct=true", "scroll_den0=true", "ppc=varied", "fp_siblings_overlap=true",
-                 "fp_saturating_extent=true", "route=ctor", "route=ref", "route=json", "tiny_ct=true"]
+                 "fp_saturating_extent=true", "route=ctor", "route=ref", "route=json", "tiny_ct=true", "fixed_leaf_grid=true", "empty_surface=true", "tight_ct=true", "zero_max=true"]
 
 
 def require_reach(ctx):
@@ -24,8 +24,95 @@ def require_reach(ctx):
     return {"violations": violations, "coverage": cov}
 
 
+API_FILES = ["src/view/mod.rs", "src/view/container.rs", "src/view/dynamic.rs", "src/view/flex.rs", "src/view/frame.rs", "src/view/scrollbar.rs", "src/view/text.rs", "src/view/layout.rs", "src/view/offscreen.rs", "src/image.rs", "src/glyph.rs"]
+API_HEADS = ["View for", "Tree for", "TreeMut for", "impl Layout", "FindPath", "impl Align", "BoxConstraint"]
+API_IMPLS_ONLY = True
+API_KNOWN = [
+    "impl Align",
+    "impl BoxConstraint",
+    "impl IntoView for &Offscreen",
+    "impl Layout",
+    "impl View for ()",
+    "impl View for Glyph",
+    "impl View for Image",
+    "impl View for ImageAsciiView",
+    "impl View for OffscreenView",
+    "impl View for RGBA",
+    "impl View for ScrollBar",
+    "impl View for String",
+    "impl View for SurfaceView<'_, Cell>",
+    "impl View for Text",
+    "impl View for ViewCached",
+    "impl View for str",
+    "impl<'a> Iterator for FindPath<'a>",
+    "impl<'a> View for Flex<'a> where Self: 'a,",
+    "impl<A> View for FlexRef<A> where A: FlexArray + Send + Sync,",
+    "impl<B, V> Dynamic<B> where B: Fn(&ViewContext, BoxConstraint) -> V + Send + Sync, V: View + 'static,",
+    "impl<B, V> View for Dynamic<B> where B: Fn(&ViewContext, BoxConstraint) -> V + Send + Sync, V: View + 'static,",
+    "impl<F> View for ScrollBarFn<F> where F: Fn() -> ScrollBarPosition + Send + Sync,",
+    "impl<L, R> View for either::Either<L, R> where L: View, R: View,",
+    "impl<T, V> View for Tag<T, V> where T: Clone + Any + Send + Sync, V: View,",
+    "impl<T: Tree> Tree for &T",
+    "impl<T: Tree> Tree for &mut T",
+    "impl<T: TreeMut> TreeMut for &mut T",
+    "impl<T: View + ?Sized> View for Arc<T>",
+    "impl<T: View + ?Sized> View for Box<T>",
+    "impl<T> Tree for TreeMutView<'_, T>",
+    "impl<T> Tree for TreeView<'_, T>",
+    "impl<T> TreeMut for TreeMutView<'_, T>",
+    "impl<V, S> View for TraceLayout<V, S> where V: View, S: Fn(&BoxConstraint, ViewLayout<'_>) + Send + Sync,",
+    "impl<V: View + ?Sized> View for &V",
+    "impl<V: View> IntoView for V",
+    "impl<V: View> View for Container<V>",
+    "impl<V: View> View for Frame<V>",
+    "impl<V: View> View for Option<V>",
+]
+
+
+def _impl_blocks(text):
+    """(header, [fn names]) of every impl block outside the tests module"""
+    import re
+    cut = text.find("#[cfg(test)]\nmod tests")
+    if cut > 0:
+        text = text[:cut]
+    out = []
+    for m in re.finditer(r"\n(?:pub )?(impl|trait)\b([^{;]*)\{", text):
+        head = " ".join((m.group(1) + m.group(2)).split())
+        i, depth = m.end(), 1
+        while depth and i < len(text):
+            depth += (text[i] == "{") - (text[i] == "}")
+            i += 1
+        out.append((head, re.findall(r"\n    (?:pub )?fn (\w+)", text[m.end():i])))
+    return out
+
+
+def api_surface(ctx):
+    """the methods / impls of the property's domain as they are in the source now, against the list the harness and the
+    model were written for: a method or impl that appears (an overridden write_all, a new view type ...) is reported"""
+    found = set()
+    for f in API_FILES:
+        try:
+            text = open(os.path.join(ctx["repo"], f)).read()
+        except OSError:
+            continue
+        for head, fns in _impl_blocks(text):
+            if not any(k in head for k in API_HEADS):
+                continue
+            if API_IMPLS_ONLY:
+                found.add(head)
+            else:
+                for fn in fns:
+                    found.add(head + " :: " + fn)
+    new = sorted(found - set(API_KNOWN))
+    violations = []
+    if new:
+        violations.append({"kind": "broken-correspondence",
+                           "what": "API surface of the property's domain not covered by harness and model: %s" % "; ".join(new), "case": {}})
+    return {"violations": violations, "coverage": {"api_items_checked": len(found)}}
+
+
 PROP = {'gen': [],
- 'extra': [require_reach],
+ 'extra': [require_reach, api_surface],
  'coq_props': ['theories/Props/C10.vo'],
  'coq_corr': ['theories/Corr/C10Corr.vo'],
  'props_file': 'theories/Props/C10.v',
